@@ -137,7 +137,12 @@ def _eligible(kind, owner, node):
         else:
             return None
     a = node.args
-    if a.vararg or a.kwarg or a.posonlyargs:
+    if a.kwarg or a.posonlyargs:
+        return None
+    if a.vararg and any(
+            isinstance(x, ast.Name) and x.id == a.vararg.arg and
+            isinstance(x.ctx, (ast.Store, ast.Del))
+            for x in ast.walk(node)):
         return None
     if node.name.startswith('__') and node.name.endswith('__'):
         return None
@@ -680,8 +685,11 @@ def _bind(helper, kind, call):
     if any(isinstance(x, ast.Starred) for x in call.args) or \
             any(k.arg is None for k in call.keywords):
         raise _Site()
+    extra = None
     if len(call.args) > len(params):
-        raise _Site()
+        if a.vararg is None:
+            raise _Site()
+        extra = list(call.args[len(params):])
     for p, v in zip(params, call.args):
         bound[p] = v
     for k in call.keywords:
@@ -696,6 +704,12 @@ def _bind(helper, kind, call):
             order.append((p, defaults[p]))
         else:
             raise _Site()
+    if a.vararg is not None:
+        # *rest: the tuple of the remaining positional arguments
+        rest = extra or []
+        if not all(_dup_safe_arg(v) for v in rest):
+            raise _Site()
+        order.append((a.vararg.arg, ast.Tuple(elts=rest, ctx=ast.Load())))
     return order
 
 
@@ -1000,7 +1014,9 @@ def _instantiate(helper, kind, call, caller_idents, tag, target=None,
         renames[name] = new
     for p, v in order:
         if p not in stored and (_simple_arg(v) or
-                                (is_expr and _dup_safe_arg(v))):
+                                (is_expr and _dup_safe_arg(v)) or (
+                                    helper.args.vararg is not None and
+                                    p == helper.args.vararg.arg)):
             exprs[p] = v
             renames.pop(p, None)
         else:
@@ -2934,6 +2950,10 @@ class _Quantifiers(ast.NodeTransformer):
             return ast.copy_location(ast.Attribute(
                 value=node.args[0], attr=node.args[1].value,
                 ctx=ast.Load()), node)
+        if isinstance(f, ast.Call) and _memoised_pure(f) is not None:
+            self.count += 1
+            node.func = _memoised_pure(f)
+            return self.visit_Call(node)
         g = _getter(node)
         if g is not None:
             # itemgetter('k') / attrgetter('a') written in place: the
@@ -3865,6 +3885,8 @@ def module_constants(tree, others=()):
                 e.args and all(literal(a) or isinstance(a, ast.Attribute)
                                for a in e.args) and not e.keywords:
             return True         # a compiled pattern is as good as its text
+        if _memoised_pure(e) is not None:
+            return True         # lru_cache(...)(re.compile): re.compile
         if _getter(e) is not None:
             return True         # itemgetter('k'): the function x -> x['k']
         if isinstance(e, ast.Call) and isinstance(e.func, ast.Name) and \
@@ -4054,6 +4076,26 @@ def _only_read(tree, name, others=()):
             continue
         return False
     return True
+
+
+_PURE_FUNCTIONS = ('re.compile',)
+
+
+def _memoised_pure(e):
+    """F for `lru_cache(...)(F)`, `functools.lru_cache(...)(F)`,
+    `functools.cache(F)` with F a function whose result only depends on its
+    arguments and is immutable (re.compile): memoising it changes nothing."""
+    if isinstance(e, ast.Call) and len(e.args) == 1 and not e.keywords and \
+            isinstance(e.args[0], (ast.Name, ast.Attribute)) and \
+            ast.unparse(e.args[0]) in _PURE_FUNCTIONS:
+        f = e.func
+        if isinstance(f, ast.Call) and ast.unparse(f.func) in (
+                'lru_cache', 'functools.lru_cache'):
+            return e.args[0]
+        if ast.unparse(f) in ('cache', 'functools.cache', 'lru_cache',
+                              'functools.lru_cache'):
+            return e.args[0]
+    return None
 
 
 def _getter(e):
@@ -5148,6 +5190,19 @@ def normalise(trees, known=None):
     _properties_as_methods(trees, known)
     n += _with_contextmanagers(trees, known)
     ilog = Inliner(trees, known).run()
+    if ilog:
+        # constants whose value was built by a helper that is now written
+        # out (a pattern assembled by a small function)
+        _INDEX.clear()
+        for t in trees.values():
+            for st in t.body:
+                if isinstance(st, ast.Assign):
+                    st.value = _fold_strings(st.value)
+                elif isinstance(st, ast.ClassDef):
+                    for s2 in st.body:
+                        if isinstance(s2, ast.Assign):
+                            s2.value = _fold_strings(s2.value)
+        ilog += inline_new_constants(trees, known)
     ilog += explicit_class_constants(trees, known)
     log = clog + ilog
     n += thread_decisions(trees)
